@@ -68,7 +68,7 @@ def run_case(case):
         if r is entries.ABSENT:
             return {"status": "absent"}
         why = []
-        tspec.TUPLE_EXTRA_OK[0] = entry == "addition" or bool((opts or {}).get("addition"))
+        tspec.TUPLE_EXTRA_OK[0] = entry in ("addition", "varkw") or bool((opts or {}).get("addition"))
         try:
             ok = tspec.conforms(r, spec, why)
         finally:
